@@ -2,12 +2,14 @@
 
 use crate::runner::PropDef;
 
+pub mod c02;
+pub mod c11;
 pub mod c15;
 pub mod c16;
 pub mod c18;
 
 pub fn all() -> Vec<&'static PropDef> {
-    vec![&c15::PROP, &c16::PROP, &c18::PROP]
+    vec![&c02::PROP, &c11::PROP, &c15::PROP, &c16::PROP, &c18::PROP]
 }
 
 pub fn find(id: &str) -> Option<&'static PropDef> {
